@@ -567,7 +567,7 @@ def c11(ap, res, size_hint=1):
         return [{"what": "the worker process died", "detail": res["worker_error"]}]
     if not res.get("ok"):
         if res.get("exc") in ("UnexpectedInput", "UnexpectedCharacters", "UnexpectedToken", "UnexpectedEOF", "VisitError",
-                              "ParseError", "LarkError", "TjpSyntaxError", "ValueError_parse"):
+                              "ParseError", "LarkError", "SyntaxParsingError", "SemanticError", "ParsingError"):
             return bad
         return [{"what": "scheduling raised an internal error / did not terminate in time", "exception": res.get("exc"),
                  "message": res.get("msg"), "where": res.get("where")}]
